@@ -446,7 +446,14 @@ impl Scenario for C17Bridge {
                     let mut l = Frame::from(m).to_bytes_with_newline();
                     let body = l.len() - 2;
                     let p = 1 + cx.draw(body as u64 - 1) as usize;
-                    if cx.chance(1, 2) {
+                    if cx.chance(1, 4) {
+                        // something in front of the colon (a NUL from a line turnaround, a blank, a byte-order
+                        // mark): the line no longer starts a frame
+                        cx.probe("frame_line_with_a_prefix_at_the_bridge");
+                        let mut pre: Vec<u8> = cx.pick(&[&b"\x00"[..], b"\x00\x00", b" ", b"\xEF\xBB\xBF", b"\xFF", b"\r"]).to_vec();
+                        pre.extend_from_slice(&l);
+                        lines.push((pre, "prefixed", Some(None)));
+                    } else if cx.chance(1, 2) {
                         l[p] = match l[p] {
                             b'0' => b'1',
                             _ => b'0',
